@@ -606,7 +606,12 @@ fn commit_with_fault(f: usize, short: usize) {
     let m = db.inner.meta();
     assert!(m.is_ok(), "the file still has a valid header");
     let fl = db.inner.freelist.peek();
+    kani::cover!(d.nwrites() == 0, "opt: the fault hit before anything was written");
+    kani::cover!(d.nwrites() >= 1 && d.epoch == 0, "opt: the fault hit after a data write, before the first sync");
+    kani::cover!(d.epoch >= 1, "opt: the fault hit after the data pages were synced");
     if let Ok(m) = m {
+        kani::cover!(m.tx_id == C, "opt: the handle shows the pre-transaction state");
+        kani::cover!(m.tx_id == C + 1, "opt: the handle shows the post-transaction state");
         // exactly the pre-transaction or exactly the post-transaction state
         assert!((m.tx_id == C && m.freelist_page == 2 && m.meta_page == 1) || (m.tx_id == C + 1 && m.freelist_page == 5 && m.meta_page == 0));
         if m.tx_id == C {
@@ -889,6 +894,7 @@ fn tx_ro_listing_handles_are_readonly() {
         let first = it.next();
         assert!(first.is_some());
         if let Some((_, b)) = &first {
+            assert!(!b.writable, "a handle from a read-only transaction's listing is not writable");
             let r = b.put([1u8], [2u8]);
             assert!(matches!(r, Err(Error::ReadOnlyTx)), "a handle from a read-only transaction's listing cannot put");
             std::mem::forget(r);
